@@ -44,6 +44,7 @@ import PyhamModel.Lemmas.Corollaries
 import PyhamModel.Lemmas.SameHierarchy
 import PyhamModel.Lemmas.CheckerSound
 import PyhamModel.Lemmas.LineageCount
+import PyhamModel.Lemmas.FilterIdentical
 namespace Pyham.Props
 open Pyham
 
@@ -475,6 +476,18 @@ theorem C11_family_identical (env : Env) (es es' : List Elem) (tops tops' : List
     ∃ (n : Node) (k k' : Nat) (h1 : i < tops.length) (h2 : j < tops'.length),
       tops[i] = n.shift k ∧ tops'[j] = n.shift k' :=
   Pyham.C11_family_identical env es es' tops tops' ps ps' hog hog' h h' i j hi hj he
+
+/-- **C11, last clause**: every family of a filtered load is -- members, taxon of every HOG, duplication grouping,
+    annotations; up to the numbering of objects -- the family the unfiltered load of the same file builds for the
+    same top-level group -/
+theorem C11_filtered_family_identical (T : STree) (nm : Naming) (inp : Input) (f : Filter) (H Hf : Ham)
+    (hog : inp.groups.all isOgWithId = true)
+    (hgenes : (inp.species.flatMap fun s => s.genes.map (·.id)).Nodup)
+    (htop : (inp.groups.map topId).Nodup)
+    (hfull : load T nm inp = .ok H) (hflt : loadFiltered T nm inp f = .ok Hf) :
+    ∀ p ∈ Hf.tops, ∃ p' ∈ H.tops, ∃ (n : Node) (k k' : Nat),
+      p.1 = p'.1 ∧ p.2 = n.shift k ∧ p'.2 = n.shift k' :=
+  Pyham.C11_filtered_family_identical T nm inp f H Hf hog hgenes htop hfull hflt
 
 /-- loading one family after anything = loading it alone, renumbered (errors included) -/
 theorem C11_family_local (env : Env) (hid og : Option String) (its : List Elem) (tops0 : List Node) (ps0 : PS)
